@@ -33,7 +33,8 @@ def enc_reply(files, diags=()):
 def run_line(dry, extra, gens, files):
     """gens: [(name, argspec|None, reply bytes|None)], files: [(kind S|R|X|D, name, text)]"""
     ex = ";".join(hx(x) for x in extra) if extra else "-"
-    g = " ".join("%s:%s:%s" % (n, hx(a) if a else "-", r.hex() if r else "-") for n, a, r in gens)
+    # a fourth component, if given, says how the generator's path is written (abs, rel, dot, dslash, updown)
+    g = " ".join("%s:%s:%s%s" % (g_[0], hx(g_[1]) if g_[1] else "-", g_[2].hex() if g_[2] else "-", (":" + g_[3]) if len(g_) > 3 else "") for g_ in gens)
     f = " ".join("%s:%s:%s" % (k, hx(n), hx(t) if isinstance(t, str) else (t.hex() or "-")) for k, n, t in files)
     return "run %d %s G %s F %s" % (1 if dry else 0, ex, g, f)
 
